@@ -227,7 +227,12 @@ class GCWorld(gen.World):
         for d in sorted(g.bytes):
             st.append(blob_get(repo, d, head=True))
             if d in g.man:
-                st.append(manifest_get(repo, d, head=True))
+                x_ = manifest_get(repo, d, head=True)
+                if any(d in (m.get("mistyped") or []) for m in g.man.values()):
+                    # listed under two kinds of manifest media types by different entries: which claim the answer carries depends on
+                    # the order in which the child list was rebuilt (finding F55 is about that answer); not compared here
+                    x_["noctype"] = True
+                st.append(x_)
         subs = {m["subject"] for m in g.man.values() if m["subject"]}
         for s in sorted(subs):
             st.append(referrers(repo, s))
